@@ -211,12 +211,21 @@ def o_operands(inp):
                     continue
                 if r.shape != (4,) or cm.bad(r) or _rel(r, ref, sc) > TOL:
                     return {'tag': f'{on}/left-{ln}/right-{rn}', 'observed': r, 'expected': ref}
-    for rn, (a, b) in {'arrays': (p.copy(), q.copy()), 'int-left': (np.array(p, dtype=int) if inp.get('int') else p.copy(), q.copy())}.items():
-        if rn == 'int-left' and not np.allclose(p, np.round(p)):
+    forms = {'arrays': (p.copy(), q.copy())}
+    if np.array_equal(p, np.round(p)):
+        forms['int-left'] = (np.array(p, dtype=int), q.copy())
+        forms['intlist-left'] = ([int(v) for v in p], q.copy())
+    if np.array_equal(q, np.round(q)):
+        forms['int-right'] = (p.copy(), np.array(q, dtype=int))
+    forms['float32-left'] = (np.array(p, dtype=np.float32), q.copy())
+    for rn, (a, b) in forms.items():
+        try:
+            r = np.asarray(O.q_prod(a, b), float)
+        except (TypeError, AttributeError):
             continue
-        r = np.asarray(O.q_prod(a, b), float)
-        if _rel(r, cm.qmul(np.array(a, float), q), sc) > TOL:
-            return {'tag': f'q_prod/{rn}', 'observed': r, 'expected': cm.qmul(np.array(a, float), q)}
+        ref2 = cm.qmul(np.array(a, float), np.array(b, float))
+        if r.shape != (4,) or _rel(r, ref2, sc) > (1e-6 if 'float32' in rn else TOL):
+            return {'tag': f'q_prod/{rn}', 'observed': r, 'expected': ref2}
     return None
 
 
@@ -245,4 +254,6 @@ def search(ctx, scale):
         ctx.check('operands', inp, cm_call(o_operands, inp), nontrivial_key=('i', i % len(ints), (i + 2) % len(ints)))
         inp = {'p': p.tolist(), 'q': [float(v) for v in ints[i % len(ints)]], 'int': True}
         ctx.check('operands', inp, cm_call(o_operands, inp), nontrivial_key=('fi', i))
+        inp = {'p': [float(v) for v in ints[i % len(ints)]], 'q': q.tolist()}
+        ctx.check('operands', inp, cm_call(o_operands, inp), nontrivial_key=('if', i))
     ctx.samples.append({'kind': 'search', 'oracle': 'algebra', 'input': {'p': qs[3].tolist(), 'q': qs[4].tolist(), 'r': qs[5].tolist()}})
